@@ -264,7 +264,7 @@ static Mat EIGS_eigenvectors(SVD *S, Index nvec)
 
 MANIFEST = {
     "category": "proof",
-    "text": "Proof of the structural clauses on the extracted PartialSVDSolver: tall matrices use A'A (dimension n) and matrix_V returns the solver's vectors, wide/square ones AA' (dimension m) and matrix_U does; each operator's rows() equals the length its perform_op maps; matrix_U(k)/matrix_V(k) return min(k, nconv) columns with index-safe block expressions; the vectors used always come from the most recent compute(); a rejected constructor call leaks nothing; LargestAlge is requested and is the sorting default. Orthonormality and the factor identities are numerical and NOT decided. The accessor contracts of the owned symmetric solver that the pairing relies on (eigenvalues() / eigenvectors(nvec) return the flagged pairs in the same stored order) are proved in the same check.",
+    "text": "Proof of the structural clauses on the extracted PartialSVDSolver: tall matrices use A'A (dimension n) and matrix_V returns the solver's vectors, wide/square ones AA' (dimension m) and matrix_U does; each operator's rows() equals the length its perform_op maps; matrix_U(k)/matrix_V(k) return min(k, nconv) columns with index-safe block expressions; the vectors used always come from the most recent compute(); a rejected constructor call leaks nothing; LargestAlge is requested and is the sorting default. Orthonormality and the factor identities are numerical and NOT decided. The accessor contracts of the owned symmetric solver that the pairing relies on (eigenvalues() / eigenvectors(nvec) return the flagged pairs in the same stored order) are proved in the same check. Third session: a static obligation on the class text (every member that the accessors fill lazily is re-initialised by compute()) covers caches added later; it is weak - it counts only when the native replay returns results of an earlier run.",
     "note": "owned SymEigsSolver replaced by its contract (C05/C12); ownership tracked by a ghost allocation counter; Eigen values not modelled",
     "technique": "CBMC dfcc frame contracts + harness-asserted postconditions on mechanically extracted C (cadical)",
 }
